@@ -15,13 +15,28 @@ def S(f):
     return ('init', (('P', 'self'), f))
 
 
+VOCAB = ('as_mut_ptr', 'as_ptr', 'add', 'write', 'read', 'drop_in_place', 'uninit', 'next_idx', 'capacity', 'len',
+         'can_push', 'is_empty', 'panic', 'begin_panic', 'assert_failed', 'panic_fmt')
+
+
 def raw_ops(path):
-    """[(kind, index-expr)] for ptr.add(i).write/read/drop_in_place in path order"""
+    """[(kind, index-expr)] for ptr.add(i).write/read/drop_in_place in path order.  Any other raw
+    operation (slices from raw parts, copies, offsets ...) is outside the schema's vocabulary: the
+    comparison cannot judge such an algorithm (CHECKER-ERROR), it does not call it a violation."""
     out = []
     adds = {}
     for e in path.events:
         if e['k'] != 'call':
             continue
+        if e.get('mode') == 'opaque' and e['name'] not in VOCAB and (
+                e['callee'].startswith(('std::ptr', 'std::slice', 'std::mem', 'std::intrinsics'))
+                or 'MaybeUninit' in e['callee']):
+            raise CheckerError('anchor=ArrayBuf raw-access vocabulary: %s uses %s, an operation the canonical ring '
+                               'schema does not know; this algorithm cannot be judged by schema agreement' % (
+                                   e['fn'], e['callee']))
+        if e['name'] == 'drop_in_place' and not e['callee'].startswith('std::ptr::mut_ptr'):
+            raise CheckerError('anchor=ArrayBuf raw-access vocabulary: %s drops through %s (not a single-element '
+                               'ptr.add(i).drop_in_place())' % (e['fn'], e['callee']))
         if e['name'] == 'add' and 'ptr' in e['callee']:
             adds[e['ret']] = e['args'][1]
         elif e['name'] in ('write', 'read', 'drop_in_place') and 'ptr' in e['callee']:
@@ -221,55 +236,72 @@ def run(C, R):
                 R.fail('C19.R5', [ie[0]['path'], 'report'], 'is_empty is not len() == 0', None)
         if cfg == 'none':
             continue
-        # ---- R4 heap variants
-        for adt, lim in ((FIXED, 'cap'), (GROWING, 'limit')):
-            fn = fn_of(adt, 'push')
-            for path in E.run(fn['path']):
-                if path.exit != 'return':
-                    continue
-                pb = [e for e in path.events if e['k'] == 'call' and e['name'] in ('push_back', 'push_front', 'insert')]
-                if len(pb) == 1 and pb[0]['name'] == 'push_back' and pb[0]['args'][1] == ('param', 'value'):
-                    R.ok('C19.R4', '%s|push_back(value)' % fn['path'])
-                else:
-                    R.fail('C19.R4', [fn['path'], 'push'], 'push must be exactly VecDeque::push_back(value)',
-                           '%s:%s' % (fn['file'], fn['line']))
-            fn = fn_of(adt, 'pop')
-            for path in E.run(fn['path']):
-                if path.exit != 'return':
-                    continue
-                pf = [e for e in path.events if e['k'] == 'call' and e['name'] in ('pop_front', 'pop_back', 'remove')]
-                if len(pf) == 1 and pf[0]['name'] == 'pop_front' and contains(path.ret, pf[0]['ret']):
-                    R.ok('C19.R4', '%s|pop_front()' % fn['path'])
-                else:
-                    R.fail('C19.R4', [fn['path'], 'pop'], 'pop must return VecDeque::pop_front()',
-                           '%s:%s' % (fn['file'], fn['line']))
-            fn = fn_of(adt, 'len')
-            for path in E.run(fn['path']):
-                c = [e for e in path.events if e['k'] == 'call' and e['name'] == 'len']
-                if c and path.ret == c[0]['ret']:
-                    R.ok('C19.R4', '%s|len()' % fn['path'])
-                else:
-                    R.fail('C19.R4', [fn['path'], 'len'], 'len must be VecDeque::len()', None)
-            fn = fn_of(adt, 'capacity')
-            for path in E.run(fn['path']):
-                if path.ret == S(lim):
-                    R.ok('C19.R4', '%s|stored limit' % fn['path'])
-                else:
-                    R.fail('C19.R4', [fn['path'], 'capacity'], 'capacity must return the stored limit', None)
-            fn = fn_of(adt, 'can_push')
-            for path in E.run(fn['path']):
-                c = [e for e in path.events if e['k'] == 'call' and e['name'] == 'len']
-                if c and path.ret == ('bin', 'Ne', c[0]['ret'], S(lim)):
-                    R.ok('C19.R4', '%s|len() != limit' % fn['path'])
-                else:
-                    R.fail('C19.R4', [fn['path'], 'can_push'], 'can_push must be len() != stored limit (returns %s)'
-                           % fmt_val(path.ret), None)
-            fn = fn_of(adt, 'with_capacity')
-            for path in E.run(fn['path']):
-                d = dict(path.ret[3]) if path.ret[0] == 'agg' else {}
-                if d.get(lim) == ('param', lim if lim == 'cap' else 'limit'):
-                    R.ok('C19.R4', '%s|limit = argument' % fn['path'])
-                else:
-                    R.fail('C19.R4', [fn['path'], 'with_capacity'], 'with_capacity must store its argument as the limit', None)
-            for wfn, s in scan_field_writes(F, lim, 'buffer::ring_buffer'):
-                R.fail('C19.R4', [wfn['path'], lim + '-reassigned'], '%s is reassigned' % lim, F.loc(wfn, s['ln']))
+        heap_variants(R, E, F, 'C19.R4', cfg)
+
+
+def heap_variants(R, E, F, rule, cfg):
+    """the VecDeque-backed buffers delegate faithfully and keep the limit they were given (capacity 0
+    included): shared by C19.R4 and C09.R6 (an unbuffered channel needs a buffer whose capacity is 0)"""
+    def fn_of(adt, name):
+        r = [f for f in F.raw['fns'] if f.get('impl_adt') == adt and f.get('name') == name]
+        if len(r) != 1:
+            raise CheckerError('anchor=%s::%s (found %d)' % (adt, name, len(r)))
+        return r[0]
+    for adt, lim in ((FIXED, 'cap'), (GROWING, 'limit')):
+        fn = fn_of(adt, 'push')
+        for path in E.run(fn['path']):
+            if path.exit != 'return':
+                continue
+            pb = [e for e in path.events if e['k'] == 'call' and e['name'] in ('push_back', 'push_front', 'insert')]
+            if len(pb) == 1 and pb[0]['name'] == 'push_back' and pb[0]['args'][1] == ('param', 'value'):
+                R.ok(rule, '%s|push_back(value)' % fn['path'])
+            else:
+                R.fail(rule, [fn['path'], 'push'], 'push must be exactly VecDeque::push_back(value)',
+                       '%s:%s' % (fn['file'], fn['line']))
+        fn = fn_of(adt, 'pop')
+        for path in E.run(fn['path']):
+            if path.exit != 'return':
+                continue
+            pf = [e for e in path.events if e['k'] == 'call' and e['name'] in ('pop_front', 'pop_back', 'remove')]
+            if len(pf) == 1 and pf[0]['name'] == 'pop_front' and contains(path.ret, pf[0]['ret']):
+                R.ok(rule, '%s|pop_front()' % fn['path'])
+            else:
+                R.fail(rule, [fn['path'], 'pop'], 'pop must return VecDeque::pop_front()',
+                       '%s:%s' % (fn['file'], fn['line']))
+        fn = fn_of(adt, 'len')
+        for path in E.run(fn['path']):
+            c = [e for e in path.events if e['k'] == 'call' and e['name'] == 'len']
+            if c and path.ret == c[0]['ret']:
+                R.ok(rule, '%s|len()' % fn['path'])
+            else:
+                R.fail(rule, [fn['path'], 'len'], 'len must be VecDeque::len()', None)
+        fn = fn_of(adt, 'capacity')
+        for path in E.run(fn['path']):
+            if path.ret == S(lim):
+                R.ok(rule, '%s|stored limit' % fn['path'])
+            else:
+                R.fail(rule, [fn['path'], 'capacity'], 'capacity must return the stored limit', None)
+        fn = fn_of(adt, 'can_push')
+        for path in E.run(fn['path']):
+            c = [e for e in path.events if e['k'] == 'call' and e['name'] == 'len']
+            if c and path.ret == ('bin', 'Ne', c[0]['ret'], S(lim)):
+                R.ok(rule, '%s|len() != limit' % fn['path'])
+            else:
+                R.fail(rule, [fn['path'], 'can_push'], 'can_push must be len() != stored limit (returns %s)'
+                       % fmt_val(path.ret), None)
+        fn = fn_of(adt, 'with_capacity')
+        for path in E.run(fn['path']):
+            d = dict(path.ret[3]) if path.ret[0] == 'agg' else {}
+            if d.get(lim) == ('param', lim if lim == 'cap' else 'limit'):
+                R.ok(rule, '%s|limit = argument' % fn['path'])
+            else:
+                R.fail(rule, [fn['path'], 'with_capacity'], 'with_capacity must store its argument as the limit', None)
+        fn = fn_of(adt, 'new')
+        for path in E.run(fn['path']):
+            d = dict(path.ret[3]) if path.ret[0] == 'agg' else {}
+            if d.get(lim) == ('const', 0):
+                R.ok(rule, '%s|default limit 0' % fn['path'])
+            else:
+                R.fail(rule, [fn['path'], 'new'], 'new() must create a buffer of capacity 0 (got %s)' % fmt_val(d.get(lim) or ('unk', '?')), None)
+        for wfn, s in scan_field_writes(F, lim, 'buffer::ring_buffer'):
+            R.fail(rule, [wfn['path'], lim + '-reassigned'], '%s is reassigned' % lim, F.loc(wfn, s['ln']))
